@@ -15,7 +15,7 @@ PROPS = {
 
 KS = "poc/wallet/keystore"
 PROPS["C02"] = dict(
-    pkgs=[KS], level="exploration",
+    pkgs=[KS], level="exploration", death_is_violation=True,
     quick=dict(checks=480, shards=16, timeout=400),
     thorough=dict(checks=16000, shards=16, timeout=2400),
     technique="property-based testing: rapid-generated wallet histories with restarts vs. reference model of the observable wallet state",
@@ -25,7 +25,7 @@ PROPS["C02"] = dict(
 )
 
 PROPS["C03"] = dict(
-    pkgs=[KS], level="exploration",
+    pkgs=[KS], level="exploration", death_is_violation=True,
     quick=dict(checks=480, shards=16, timeout=400),
     thorough=dict(checks=16000, shards=16, timeout=2400),
     technique="property-based testing: rapid-generated wallet histories with adversarial passphrase arguments vs. reference model, plus in-package inspection of secret fields after every step",
@@ -34,7 +34,7 @@ PROPS["C03"] = dict(
     assumptions=["secrets are inspected in the fields of AddrManager/ManagedAddress that exist on the pinned tree", "Go garbage (already dropped copies) is out of scope"],
 )
 PROPS["C05"] = dict(
-    pkgs=[KS], level="exploration",
+    pkgs=[KS], level="exploration", death_is_violation=True,
     quick=dict(checks=400, shards=16, timeout=400),
     thorough=dict(checks=12000, shards=16, timeout=2400),
     technique="property-based testing: rapid-generated wallet histories, signatures judged by the chain library's pocec verification (independent of the wallet's VerifySig)",
@@ -43,13 +43,23 @@ PROPS["C05"] = dict(
     assumptions=["keeper path SpaceKeeper.SignHash is exercised in the capacity harness (C06/C15) only as pass-through"],
 )
 PROPS["C01"] = dict(
-    pkgs=[KS], level="exploration",
+    pkgs=[KS], level="exploration", death_is_violation=True,
     quick=dict(checks=480, shards=16, timeout=400),
     thorough=dict(checks=16000, shards=16, timeout=2400),
     technique="property-based testing: rapid-generated export/delete/import histories across two wallets, round-trip oracle against a reference model, single-field corruption of the export file",
     level_text="Round trip export->import (same wallet after delete, other wallet) over generated histories is compared key by key with the model; rejected imports (wrong passphrase, present keystore, tampered file) must leave both wallets equal to the model; all restored keys must sign after unlock. Exploration with bounded history length and one corruption per import.",
     level_note="Trusted: reference model; pocec verification. Corruptions of unauthenticated fields are classified per field (see known_findings.json).",
     assumptions=["child counts are corrupted by at most +-8 so that a hostile count cannot stall the run"],
+)
+
+PROPS["C12"] = dict(
+    pkgs=[KS], level="fault_enumeration", exhaustive=True, death_is_violation=True,
+    quick=dict(checks=96, shards=16, timeout=500),
+    thorough=dict(checks=3200, shards=16, timeout=2400),
+    technique="fault enumeration driven by property-based generation: rapid generates the history and target operation; every bucket write and commit of the target is failed/crashed through a fault-injecting db.DB wrapper; oracle = full reference-model equality before/after",
+    level_text="Per generated history the fault space of the target operation (each write x error, each commit x {error, crash before, crash after}) is enumerated completely; histories and targets are sampled. The store transaction is the unit of durability (goleveldb trusted).",
+    level_note="Trusted: goleveldb transaction atomicity (a discarded transaction leaves nothing, a committed one is durable); the fault wrapper in zz_verif_c12_test.go; read-path faults are outside the property's fault list and are not injected.",
+    assumptions=["crash = transaction discarded (before commit) or committed (after commit), then the manager is dropped and the store reopened", "exhaustive refers to the fault points of the target operation of each generated history, not to the space of histories"],
 )
 
 META = dict(
